@@ -238,6 +238,18 @@ def run(ctx):
     total = 0
     eol = rng.choice(["\r\n", "\r\n", "\n"])
     while total < target:
+      nxt = (total // 4096 + 1) * 4096
+      if 60 < nxt - total < 400 and rng.random() < 0.8:
+        # a two-line cue whose FIRST text line ends exactly at a 4 KiB multiple (so also at 8, 16, 64 KiB ones): the line
+        # end then straddles whatever power-of-two block a reader may read the file in
+        head = "%d%s00:00:01,000 --> 00:00:02,000%s" % (len(parts) + 1, eol, eol)
+        fill = nxt - total - len(head) - (1 if eol == "\r\n" else 0) - rng.choice([0, 0, 1])
+        if fill > 0:
+          text = head + "x" * fill + eol + "second line" + eol + eol
+          alone, _fr, _d = S.observe(text, "raw")
+          parts.append((text, len(alone["ps"])))
+          total += len(text)
+          continue
       lines, opts = S.gen_case(rng, maxcues=3)
       text = S.render_srt(lines, rng, eol, opts["syntax"], True)
       if not text.endswith(eol + eol):
